@@ -749,6 +749,38 @@ func asmBusyExec(c *Ctx, op string) {
 		c.EmitR(op, "skip", "skip")
 		return
 	}
+	if strings.HasSuffix(op, " overlay") {
+		// variant: the *overlay* placement of the directory ware is the busy one — a file written through the mount is
+		// held open. Its unmount fails; what was written through the still-live mount must still be there afterwards
+		// (nothing is deleted after a failed step: that includes the overlay's own upper / work area).
+		wpath := filepath.Join(root, "b", "written-by-user")
+		os.WriteFile(wpath, []byte("user data"), 0644)
+		held, _ := os.Open(wpath)
+		terr := cleanup()
+		stillB := mounted(filepath.Join(root, "b"))
+		c.H(fmt.Sprintf("busy-overlay:mounted=%v", stillB))
+		if stillB {
+			if terr == nil {
+				c.PropFail("teardown-error-lost", "the unmount of a busy overlay placement failed but no error was reported", op)
+			}
+			if b, e := os.ReadFile(wpath); e != nil || string(b) != "user data" {
+				c.PropFail("delete-after-failure", fmt.Sprintf("after the unmount of an overlay placement failed, the data written through the (still live) mount is gone: %v", e), op)
+			}
+			if ents, e := os.ReadDir(filepath.Join(root, "b")); e != nil || len(ents) < 2 {
+				c.PropFail("delete-after-failure", "after the unmount of an overlay placement failed, the mount no longer shows its content (its layer directories were deleted)", op)
+			}
+			if _, e := os.Lstat(filepath.Join(root, "a", "f")); e != nil {
+				c.PropFail("delete-after-failure", "a copied plain-file placement was deleted after an unmount had failed", op)
+			}
+		}
+		if held != nil {
+			held.Close()
+		}
+		unmountAllUnder(root)
+		c.EmitR(op, "skip", "skip")
+		c.Distinct(op)
+		return
+	}
 	busy, _ := os.Open(filepath.Join(root, "z", "precious"))
 	terr := cleanup()
 	_, fileErr := os.Lstat(filepath.Join(root, "a", "f"))
@@ -788,4 +820,5 @@ func asmBusyEngine(c *Ctx) {
 		return
 	}
 	asmBusyExec(c, "asmbusy 1")
+	asmBusyExec(c, "asmbusy 2 overlay")
 }
